@@ -14,6 +14,7 @@ import Rooc.Proofs.LinExamples
 import Rooc.Proofs.LinMain
 import Rooc.Proofs.LinCounter
 import Rooc.Proofs.LinBridgeCounter
+import Rooc.Proofs.LinDExamples2
 namespace Rooc.Props.C02
 open Rooc Rooc.Lin Rooc.Sem Rooc.LinP
 
@@ -190,5 +191,43 @@ example (t : K) (n : Nat) : ∃ (m : Model (Ext K)) (lm : LinModel (Ext K)) (ρ 
     exact ⟨(haff.cons c hc).notAssert, FG_of_AG (haff.cons c hc).lhs, FG_of_AG (haff.cons c hc).rhs, hdef c hc⟩
   · simp [srcFeasible, exAffine, constraintHolds, eval, cmpK, inDomain, geExt, leExt]
   · simp [exAffine, eval]
+
+/-! ## Stage D end to end — C02 on models with logic values and bare assertions
+(vocabulary: `LogicModel`, `GoodE`, `AssertShape` — see `Rooc/Props/C01.lean`, section "Stage D end to end"). -/
+
+/-- **C02 for models with logic values and bare assertions**: for every model that compiles and satisfies the
+contract, and every source-feasible `ρ` with objective value `v`: every feasible auxiliary extension has a
+linear objective on the right side of `v`, and some feasible extension attains `v`.  `_partial`: as
+`Rooc.Props.C01.c01_logic_partial`. -/
+theorem c02_logic_partial {m : Model (Ext K)} {b : BoundsMap (Ext K)} {d : List (DomVar (Ext K))}
+    {lm : LinModel (Ext K)} (h : linearizeWith m b d = .ok lm)
+    (hm : LogicModel m d) (hdom : DomRel m d) (hbox : BoxEnforced b d)
+    (ρ : String → K) (hs : srcFeasible m ρ = true) (v : K) (hv : eval ρ m.objective = some v) :
+    (∀ ρ' : String → K, (∀ x, inScope d x → ρ' x = ρ x) → linFeasible lm ρ' = true →
+        ∃ w, linObjective lm ρ' = some w ∧ rel (objReq m) w v) ∧
+    (∃ ρ' : String → K, (∀ x, inScope d x → ρ' x = ρ x) ∧ linFeasible lm ρ' = true ∧
+        linObjective lm ρ' = some v) :=
+  logic_objective hm hdom hbox h ρ hs v hv
+
+open Rooc.BoundsProofs in
+/-- **C02 for the whole pipeline `Compile.linearize`, models with logic.** -/
+theorem c02_compile_logic_partial {m : Model (Ext K)} {t : K} (ht : 0 ≤ t) {maxSteps : Nat} {lm : LinModel (Ext K)}
+    (h : Compile.linearize m (.fin t) maxSteps = .ok lm)
+    (hm : LogicModel m m.domain) (hsh : AssertShape m) (hok : DeclOK m.domain)
+    (ht1 : t < 1 ∨ NoIntVars m.domain)
+    (ρ : String → K) (hs : srcFeasible m ρ = true) (v : K) (hv : eval ρ m.objective = some v) :
+    (∀ ρ' : String → K, (∀ x, inScope m.domain x → ρ' x = ρ x) → linFeasible lm ρ' = true →
+        ∃ w, linObjective lm ρ' = some w ∧ rel (objReq m) w v) ∧
+    (∃ ρ' : String → K, (∀ x, inScope m.domain x → ρ' x = ρ x) ∧ linFeasible lm ρ' = true ∧
+        linObjective lm ρ' = some v) :=
+  compile_objective_logic ht h hm hsh hok ht1 ρ hs v hv
+
+/-- non-vacuity with real logic and a source-feasible point: `min a s.t. assert (a or b)` at `a = 0, b = 1`. -/
+example : ∃ (m : Model (Ext K)) (b : BoundsMap (Ext K)) (d : List (DomVar (Ext K))) (lm : LinModel (Ext K))
+    (ρ : String → K) (v : K),
+    linearizeWith m b d = .ok lm ∧ LogicModel m d ∧ DomRel m d ∧ BoxEnforced b d ∧
+      srcFeasible m ρ = true ∧ eval ρ m.objective = some v := by
+  obtain ⟨lm, h⟩ := exOr_ok (K := K)
+  exact ⟨exOr, [], exOr.domain, lm, _, 0, h, exOr_logicModel, exOr_domRel, exOr_box, exOr_feasible.1, exOr_feasible.2⟩
 
 end Rooc.Props.C02
